@@ -230,6 +230,77 @@ pub fn contexts(tier: Tier) -> Vec<Ctx> {
         out.push(Ctx { name: format!("a[{hn}]=m"), stmts: vec![assign("a", vec![Acc::Index(h())], m())], r: None });
         out.push(Ctx { name: format!("a[{hn}]^=n"), stmts: vec![op_assign("a", vec![Acc::Index(h())], BinOp::BitXor, n())], r: None });
     }
+    // ---- degenerate loops and zero-width values next to shadowing bindings
+    {
+        let empty_u8 = || ex(ExprKind::ArrRep(Box::new(u8l(0)), 0));
+        let one_range = || ex(ExprKind::Range(2, 3, IntTy::Usize));
+        let units = || ex(ExprKind::ArrRep(Box::new(tup(vec![])), 2));
+        let loops: Vec<(&str, Stmt)> = vec![
+            ("for e in [0u8;0]", for_(pvar("e"), empty_u8(), vec![assign("m", vec![], bin(BinOp::BitXor, m(), var("e")))])),
+            ("for k in 2..3", for_(pvar("k"), one_range(), vec![assign("m", vec![], bin(BinOp::BitXor, m(), cast(var("k"), Ty::u8())))])),
+            ("for u in [();2]", for_(pvar("u"), units(), vec![assign("m", vec![], bin(BinOp::BitXor, m(), u8l(3)))])),
+            ("for e in [0u8;0] {let n}", for_(pvar("e"), empty_u8(), vec![let_("n", var("e")), assign("m", vec![], n())])),
+        ];
+        for (ln, l) in &loops {
+            // directly in the function body, after a shadowing let in an inner block, in a branch, in an arm, in a loop body
+            out.push(Ctx { name: format!("{ln}"), stmts: vec![l.clone()], r: None });
+            out.push(Ctx {
+                name: format!("{{let n=77;{ln}}}"),
+                stmts: vec![expr_stmt(block(vec![let_("n", u8l(77)), l.clone(), assign("m", vec![], bin(BinOp::BitXor, m(), n()))])), assign("n", vec![], bin(BinOp::BitXor, n(), u8l(1)))],
+                r: None,
+            });
+            out.push(Ctx {
+                name: format!("{{let mut n=77;{ln};n=5}}"),
+                stmts: vec![expr_stmt(block(vec![let_mut("n", u8l(77)), l.clone(), assign("n", vec![], u8l(5))])), assign("n", vec![], bin(BinOp::BitXor, n(), u8l(1)))],
+                r: None,
+            });
+            out.push(Ctx {
+                name: format!("{{{ln};let n=77}}"),
+                stmts: vec![expr_stmt(block(vec![l.clone(), let_("n", u8l(77)), assign("m", vec![], bin(BinOp::BitXor, m(), n()))])), assign("n", vec![], bin(BinOp::BitXor, n(), u8l(1)))],
+                r: None,
+            });
+            out.push(Ctx {
+                name: format!("if b{{let n=77;{ln}}}else{{let n=78;{ln}}}"),
+                stmts: vec![
+                    expr_stmt(if_(var("b"), vec![let_("n", u8l(77)), l.clone(), assign("m", vec![], n())], Some(vec![let_("n", u8l(78)), l.clone(), assign("m", vec![], bin(BinOp::BitXor, m(), n()))]))),
+                    assign("n", vec![], bin(BinOp::BitXor, n(), u8l(1))),
+                ],
+                r: None,
+            });
+            out.push(Ctx {
+                name: format!("if b{{let n=77;{ln}}}"),
+                stmts: vec![expr_stmt(if_(var("b"), vec![let_("n", u8l(77)), l.clone(), assign("m", vec![], n())], None)), assign("n", vec![], bin(BinOp::BitXor, n(), u8l(1)))],
+                r: None,
+            });
+            out.push(Ctx {
+                name: format!("match n{{0=>{{let m=1;{ln}}},w=>..}}"),
+                stmts: vec![
+                    expr_stmt(match_(
+                        n(),
+                        vec![
+                            (Pat::Int(0, Some(IntTy::U8)), block(vec![let_("n", u8l(9)), l.clone(), assign("m", vec![], bin(BinOp::BitXor, m(), n()))])),
+                            (pvar("w"), block(vec![assign("m", vec![], var("w"))])),
+                        ],
+                    )),
+                    assign("n", vec![], bin(BinOp::BitXor, n(), u8l(1))),
+                ],
+                r: None,
+            });
+            out.push(Ctx {
+                name: format!("for x in a{{let n=x;{ln}}}"),
+                stmts: vec![for_(pvar("x"), var("a"), vec![let_("n", var("x")), l.clone(), assign("m", vec![], bin(BinOp::BitXor, m(), n()))]), assign("n", vec![], bin(BinOp::BitXor, n(), u8l(1)))],
+                r: None,
+            });
+            out.push(Ctx {
+                name: format!("hf(..{ln}..)"),
+                stmts: vec![assign("m", vec![], call("loopx", vec![m(), n()]))],
+                r: None,
+            });
+        }
+        // zero-width values flowing through bindings, tuples and calls
+        out.push(r_is("let u=();(u,n).1".into(), block(vec![let_("u", tup(vec![])), expr_stmt(tupf(tup(vec![var("u"), n()]), 1))]), u8t.clone()));
+        out.push(r_is("[n;0] then n".into(), block(vec![let_("z", ex(ExprKind::ArrRep(Box::new(n()), 0))), let_("n", u8l(4)), expr_stmt(bin(BinOp::BitXor, n(), m()))]), u8t.clone()));
+    }
     // ---- two holes (order of evaluation between siblings)
     let pairs: Vec<(usize, usize)> = if two_holes { (0..ebs.len()).flat_map(|x| (0..ebs.len()).map(move |y| (x, y))).collect() } else { vec![(0, 1), (1, 0), (0, 0), (2, 0), (0, 2), (3, 0), (0, 4)] };
     for (x, y) in pairs {
@@ -293,6 +364,24 @@ pub fn skeleton(ctx: &Ctx) -> Program {
     }
     if text.contains("\"firstx\"") {
         p.fns.push(FnDef { is_pub: false, name: "firstx".into(), params: vec![p1("v"), p1("w")], ret: Ty::u8(), body: vec![expr_stmt(var("v"))] });
+    }
+    if text.contains("\"loopx\"") {
+        // a helper whose body shadows its parameter inside a block that also holds an empty loop
+        p.fns.push(FnDef {
+            is_pub: false,
+            name: "loopx".into(),
+            params: vec![p1("v"), p1("w")],
+            ret: Ty::u8(),
+            body: vec![
+                let_mut("acc", var("v")),
+                expr_stmt(block(vec![
+                    let_("w", u8l(50)),
+                    for_(pvar("e"), ex(ExprKind::ArrRep(Box::new(u8l(0)), 0)), vec![assign("acc", vec![], bin(BinOp::BitXor, var("acc"), var("e")))]),
+                    assign("acc", vec![], bin(BinOp::BitXor, var("acc"), var("w"))),
+                ])),
+                expr_stmt(bin(BinOp::BitXor, var("acc"), var("w"))),
+            ],
+        });
     }
     if text.contains("\"subx\"") {
         p.fns.push(FnDef { is_pub: false, name: "subx".into(), params: vec![p1("v"), p1("w")], ret: Ty::u8(), body: vec![expr_stmt(bin(BinOp::BitXor, bin(BinOp::Mul, var("v"), u8l(2)), var("w")))] });
